@@ -1,9 +1,12 @@
 package c37
 
 import (
+	"bytes"
 	"context"
 	"encoding/binary"
 	"fmt"
+	"os"
+	"os/exec"
 	"sort"
 	"strconv"
 	"strings"
@@ -117,6 +120,130 @@ func plainFilePyramid(seed uint64, n int) (boson.Address, []*cipb.ChunkPyramidRe
 		panic(err)
 	}
 	return ch.Address(), []*cipb.ChunkPyramidResp{{Hash: ch.Address().Bytes(), Chunk: ch.Data()}, {Ok: true}}
+}
+
+// nestedRaggedPyramid: five BMT-valid chunks whose spans and payloads disagree (sizes written for 4 KiB
+// chunks while boson.ChunkSize is larger): root(span 128*4096+4106) -> [A (span 128*4096, 128 refs to D),
+// B (span 4106, refs to D and E plus 8 zero bytes)].  The joiner descends into A in an errgroup goroutine
+// and slices a leaf out of range there: the process dies.
+func nestedRaggedPyramid() (boson.Address, []*cipb.ChunkPyramidResp) {
+	mk := func(span uint64, payload []byte) boson.Chunk {
+		sp := make([]byte, 8)
+		binary.LittleEndian.PutUint64(sp, span)
+		ch, err := cac.NewWithDataSpan(append(sp, payload...))
+		if err != nil {
+			panic(err)
+		}
+		return ch
+	}
+	d := mk(4096, make([]byte, 4096))
+	small := make([]byte, 10)
+	small[0] = 9
+	e := mk(10, small)
+	var full []byte
+	for i := 0; i < 128; i++ {
+		full = append(full, d.Address().Bytes()...)
+	}
+	a := mk(128*4096, full)
+	b := mk(4106, append(append(append([]byte(nil), d.Address().Bytes()...), e.Address().Bytes()...), make([]byte, 8)...))
+	root := mk(128*4096+4106, append(append([]byte(nil), a.Address().Bytes()...), b.Address().Bytes()...))
+	var fs []*cipb.ChunkPyramidResp
+	for _, c := range []boson.Chunk{root, a, b, d, e} {
+		fs = append(fs, &cipb.ChunkPyramidResp{Hash: c.Address().Bytes(), Chunk: c.Data()})
+	}
+	return root.Address(), append(fs, &cipb.ChunkPyramidResp{Ok: true})
+}
+
+// A pyramid with an intermediate chunk below the root makes the joiner work in errgroup goroutines, where a
+// panic cannot be recovered: such replies are first tried in a child process (this binary re-executed with
+// C37_PROBE_PYRAMID set, see init below).
+func pyramidOf(reply []byte) (map[string][]byte, bool) {
+	fr := newFrameReader(reply)
+	pyr := map[string][]byte{}
+	for {
+		var r cipb.ChunkPyramidResp
+		if ok, _ := fr.next(&r); !ok {
+			return pyr, false
+		}
+		if r.Ok {
+			return pyr, true
+		}
+		pyr[boson.NewAddress(r.Hash).String()] = r.Chunk
+	}
+}
+
+func needsProbe(pyr map[string][]byte) bool {
+	inter := 0
+	for _, c := range pyr {
+		if len(c) >= 8 && binary.LittleEndian.Uint64(c[:8]) > boson.ChunkSize {
+			inter++
+		}
+	}
+	return inter >= 2
+}
+
+const probeEnv = "C37_PROBE_PYRAMID"
+
+func init() {
+	v := os.Getenv(probeEnv)
+	if v == "" {
+		return
+	}
+	// v names a file: first line hex root, second line hex reply stream
+	raw, err := os.ReadFile(v)
+	if err != nil {
+		os.Exit(9)
+	}
+	parts := strings.Fields(string(raw))
+	if len(parts) != 2 {
+		os.Exit(9)
+	}
+	rb, err1 := core.UnHex(parts[0])
+	reply, err2 := core.UnHex(parts[1])
+	if err1 != nil || err2 != nil {
+		os.Exit(9)
+	}
+	pyr, _ := pyramidOf(reply)
+	func() {
+		defer func() {
+			if e := recover(); e != nil {
+				fmt.Fprintln(os.Stderr, "probe: panic in caller goroutine:", e)
+				os.Exit(3)
+			}
+		}()
+		_, _, _ = traversal.New(storemock.NewStorer()).GetChunkHashes(context.Background(), boson.NewAddress(rb), pyr)
+	}()
+	os.Exit(0)
+}
+
+// probePyramid reports whether the real traversal survives the pyramid (in a child process).
+func probePyramid(root boson.Address, reply []byte) (survived bool, detail string) {
+	exe, err := os.Executable()
+	if err != nil {
+		return true, ""
+	}
+	f, err := os.CreateTemp("", "c37-probe-*")
+	if err != nil {
+		return true, ""
+	}
+	defer os.Remove(f.Name())
+	_, _ = f.WriteString(core.Hex(root.Bytes()) + "\n" + core.Hex(reply) + "\n")
+	_ = f.Close()
+	cmd := exec.Command(exe, "C37", "rule")
+	cmd.Env = append(os.Environ(), probeEnv+"="+f.Name())
+	var stderr bytes.Buffer
+	cmd.Stderr = &stderr
+	if err := cmd.Run(); err != nil {
+		msg := stderr.String()
+		if !strings.Contains(msg, "panic") && !strings.Contains(msg, "fatal error") {
+			return true, "" // the child could not be run: fall through to the in-process call
+		}
+		if i := strings.Index(msg, "\n"); i > 0 {
+			msg = msg[:i]
+		}
+		return false, trunc(msg, 160)
+	}
+	return true, ""
 }
 
 func sortedKeys(m map[string][]byte) []string {
@@ -271,6 +398,14 @@ func (rn *runner) stepCi(ctx *core.Ctx, op []string) string {
 			local := boson.NewAddress(req.Target).Equal(e.self) || known
 			t := []string{"Y", hx(req.RootCid), hx(req.Target), core.B(boson.NewAddress(req.Target).Equal(e.self))}
 			if !local {
+				if pyr, term := pyramidOf(reply); term && needsProbe(pyr) {
+					if ok, detail := probePyramid(root, reply); !ok {
+						// the real handler would take the whole process down: report, and answer what a rejecting traversal gives
+						ctx.Fail("chunkinfo-pyramid-joiner-goroutine-panic", "traversal.GetChunkHashes on this peer pyramid kills the process: %s", detail)
+						ctx.Annotate(append(t, "G", itoa(int64(len(pyr))), "K", "T0")...)
+						return "err"
+					}
+				}
 				// what the forwarded request's reply decodes to: frames until Ok, and whether the REAL traversal accepts the pyramid
 				t = append(t, e.annPyramidReply(ctx, root, reply)...)
 			}
